@@ -113,6 +113,9 @@ def make_data(cfg):
             # sensors recorded in very different units
             x = x * np.asarray(cfg["col_scales"], dtype=float)[None, :N]
         x = x + cfg.get("offset", 0.0)
+        if cfg.get("dead_sensor") is not None:
+            # a sensor that reads exactly the same value throughout (disconnected, saturated)
+            x[:, cfg["dead_sensor"]] = cfg.get("dead_value", 0.0)
         if cfg.get("data_dtype"):
             # count-like data: the same kind of series stored in an integer (or narrower float) array
             x = np.round(x * 4.0).astype(cfg["data_dtype"])
